@@ -233,9 +233,9 @@ impl Engine for VmEngine {
             run("setvar($6d,int(#11)),setvar($66,call($6d6b,[int(#5)])),setglobal($67,dyncall([],readvar($66)))", ",fn($6d6b,[$78],[return(closure([],[return(readvar($78))]))])"),
             // two captured variables in ascending order, read after the scope exited (F20)
             run("setvar($66,call($6d6b,[])),setglobal($67,dyncall([],readvar($66)))", ",fn($6d6b,[],[setvar($61,int(#1)),setvar($62,int(#2)),return(closure([],[return(add(mul(readvar($61),int(#10)),readvar($62)))]))])"),
-            // K6 consequence: `abort` in a function called back by a host function leaves the callee's
-            // frame on the call stack; the enclosing closure then registers a non-local upvalue under a
-            // frame without closure (the capture assertion of RegisterUpvalue)
+            // (repaired, was K9) `abort` in a function called back by a host function left the callee's
+            // frame on the call stack; the enclosing closure then registered a non-local upvalue under a
+            // frame without closure (the capture assertion of RegisterUpvalue: a panic)
             run("setvar($78,int(#1)),setvar($66,closure([],[callnative($706170706c79,[function($68)]),closure([],[readvar($78)])])),dyncall([],readvar($66))", ",fn($68,[],[abort])"),
             // error inside a nested card: trace must name the failing card (F14)
             run("setglobal($67,callnative($6661696c,[]))", ""),
